@@ -115,6 +115,30 @@ def realise(can, tree, taxa_order, seq_order, seqs, tip):
     return case
 
 
+def newick_with_lengths(can, tree, frac, trifurcate):
+    """The unrooted tree of `can` as a newick string carrying its branch lengths, rooted as `tree`:
+    the root edge is split frac : 1-frac between the two root children; with trifurcate the first
+    internal root child is dissolved (the usual way an unrooted tree is written)."""
+    n, names = can["n"], can["names"]
+    cl = clades(tree)
+    rep = lambda x: repr(float(x))
+
+    def rec(u, length):
+        if isinstance(u, int):
+            return f"{names[u]}:{rep(length)}"
+        return "(" + ",".join(rec(ch, can["edge"][split_key(cl[id(ch)], n)]) for ch in u) + f"):{rep(length)}"
+    a, b = tree
+    e = can["edge"][split_key(cl[id(a)], n)]
+    if trifurcate:
+        inner, other = (a, b) if not isinstance(a, int) else (b, a)
+        if isinstance(inner, int):
+            return None
+        kids = [rec(ch, can["edge"][split_key(cl[id(ch)], n)]) for ch in inner]
+        parts = kids + [rec(other, e)] if inner is a else [rec(other, e)] + kids
+        return "(" + ",".join(parts) + ");"
+    return "(" + rec(a, frac * e) + "," + rec(b, (1.0 - frac) * e) + ");"
+
+
 # ------------------------------------------------------------------ rerooting an unrooted tree
 
 def reroot(tree, rng):
@@ -168,6 +192,16 @@ def variants(can, rng):
         rt = reroot(can["tree"], rng)
         p2 = ident[:]; rng.shuffle(p2)
         out.append(("reroot", realise(can, rt, p2, ident, can["seqs"], "partials_noamb")))
+        # ... and with the lengths written in the newick string, for the original and the re-rooted form,
+        # the root edge split anywhere between the two root children, or the root written as a trifurcation
+        for tag, tr_ in (("newick_lengths", can["tree"]), ("newick_lengths_reroot", reroot(can["tree"], rng))):
+            v = realise(can, tr_, ident, ident, can["seqs"], "partials_noamb")
+            tri = rng.random() < 0.3
+            nwk = newick_with_lengths(can, tr_, rng.choice([0.5, rng.uniform(0.05, 0.95)]), tri)
+            if nwk is None:
+                nwk = newick_with_lengths(can, tr_, 0.5, False)
+            v["treem"] = dict(kind="unrooted", newick=nwk, bl=None)
+            out.append((tag, v))
     return A, out
 
 
@@ -232,7 +266,9 @@ def run(tier, seed, replay=None):
     uniq = {}
     for kind, A, B, oa, ob in results:
         for c, o in ((A, oa), (B, ob)):
-            if not isinstance(o, Exception):
+            # (specifications with the lengths in the newick string are decided by the pair only: their
+            #  node numbering is dendropy's, not the one the model is told about)
+            if not isinstance(o, Exception) and not c["treem"].get("newick"):
                 uniq.setdefault(json.dumps(c, sort_keys=True, default=str), (c, o))
     keys = list(uniq)
     exprs = [c01.coq_case(*uniq[k]) for k in keys]
@@ -250,6 +286,8 @@ def run(tier, seed, replay=None):
         if not ok:
             continue
         for tag, c, o in (("A", A, oa), ("B", B, ob)):
+            if c["treem"].get("newick"):
+                continue
             iv = model[json.dumps(c, sort_keys=True, default=str)]
             if iv is None or not c01.rel_close(o["value"], *iv):
                 fs = search()
@@ -262,6 +300,7 @@ def run(tier, seed, replay=None):
     rep.rule = ("canonical trees (3..7 / 3..10 taxa) with data keyed by taxon name, clade or bipartition, realised as "
                 "pairs of equivalent JSON specifications: permuted taxa list, permuted sequence list, swapped children, "
                 "permuted columns, tip states vs tip partials (ambiguous = missing), root moved to a random branch with "
-                "the taxa permuted as well (unrooted, reversible models); non-trivial = >= 3 taxa; distinct = distinct pair")
+                "the taxa permuted as well (unrooted, reversible models), the same unrooted tree with its lengths written in "
+                "the newick string (keep_branch_lengths; root edge split anywhere, trifurcating root, re-rooted); non-trivial = >= 3 taxa; distinct = distinct pair")
     rep.extra = dict(input_distribution=dist, traces_validated_against_impl=len(keys), pairs=len(results))
     return rep.finish()
